@@ -123,3 +123,15 @@ def begin_run():
     order.controller.reset()
     source_shim.fail_names = set()
     source_shim.fired = 0
+
+
+def sigkey(spec, mid, prio=None):
+    """Key under which the library considers two methods to have the *identical* signature:
+    parameter types, kinds and defaults and the priority - positional parameter names are not
+    part of it (keyword-only names are)."""
+    import json as _json
+
+    m = spec["methods"][mid]
+    p = m.get("prio", 0) if prio is None else prio
+    return _json.dumps([[(q[0] if q[1] == "kw" else None, q[1] if q[1] == "kw" else "pos", q[2], q[3])
+                         for q in m["params"]], p])
